@@ -18,6 +18,7 @@ POOL = ["Glc", "Man(a1-4)Glc", "Gal(b1-4)GlcNAc", "Neu5Ac(a2-3)Gal(b1-4)Glc", "M
         "Xyl-ol", "Glc-onic", "Gal-aric", "LDManHep", "DDManHep", "3,6-Anhydro-Gal", "1,6-Anhydro-Glc", "L-Glc", "D-Fuc", "L-Fuc a",
         "GlcN", "GlcNAc6S", "Glc2Ac3Ac", "Man(a1-3)[Man(a1-6)]Man", "Fruf", "Kdo", "Glc6Ole", "Glc3Me", "Man(a1-4)Xyl-ol", "Glc-ulosonic",
         "GlcA", "Glc4e", "ManHep", "AraHex", "Rha-ol", "Fuc-ol", "Kdo-ol", "Mur-ol", "Api-ol", "Ery-ol", "Neu5Ac", "Sia", "Ins",
+        "Glc1Me(a1-4)Glc", "Rib2OMe(b2-2)Xyl", "Fuc2Me(a2-4)Gal6A", "Glc6F", "Gal2Cl(b1-4)Glc", "Glc3N3Me", "Man4S(a1-4)Man4S",
         "Unk", "Glc(a1-?)Man", "{Man(a1-4)}Glc", "Glc#Man", "xyz", "", "Man(a1-4)", "GlcLeu", "Glc7S", "Fuc6d", "Man((a1-4)Glc"]
 
 
@@ -29,7 +30,8 @@ def make_history(r, n):
         if k <= 3:
             methods = r.choice([["get_smiles"], ["get_smiles", "get_smiles"], ["summary", "get_smiles"], ["count:Glc", "get_smiles"],
                                 ["save_dot", "get_smiles"], ["get_smiles", "summary", "count:Man", "save_dot", "get_smiles"],
-                                ["get_tree", "get_smiles"]])
+                                ["get_tree", "get_smiles"], ["fgcount:Ac", "get_smiles"], ["fgcount:C(=O", "get_smiles"], ["fgcount:OC|N", "get_smiles"],
+                                ["fgcount:[OH]", "fgcount:S|Me|C(=O", "proton:1", "get_smiles"], ["proton:0", "fgcount:xyz", "get_smiles"]])
             kw = r.choice([{}, {}, {"full": False}, {"tree_only": True}, {"root_orientation": "a"}, {"start": 3}])
             calls.append({"op": "glycan", "iupac": pick(), "kw": kw, "methods": methods})
         elif k <= 6:
@@ -135,7 +137,7 @@ def run(tier):
             report.fail({"site": "glycan-object", "kind": "result-depends-on-earlier-calls", "options": json.dumps(it_["kw"], sort_keys=True)},
                         {"input": it_["iupac"], "options": it_["kw"], "get_smiles_1st_2nd_3rd": o_["smiles"], "summary_1st_2nd": o_["summary_ok"],
                          "problem": "the same object gives different results depending on what was called on it before (get_smiles, summary, count, save_dot in between)"})
-    extra = {"object_reuse_cases": obj_cases, "rule": "random histories of 3-12 (quick) / 3-30 (thorough) calls of convert (return / stdout / file / missing file), convert_generator (exhausted, abandoned, closed or not), Glycan + get_smiles / summary / count / save_dot / get_tree, over a pool of inputs covering open forms with and without resizing, acids, anhydro, D/L, amino, modifications and failures; each call is compared with the same call made first in a fresh interpreter; the shared tables are snapshot after every call",
+    extra = {"object_reuse_cases": obj_cases, "rule": "random histories of 3-12 (quick) / 3-30 (thorough) calls of convert (return / stdout / file / missing file), convert_generator (exhausted, abandoned, closed or not), Glycan + get_smiles / summary / count / count_functional_groups (known tokens, SMILES, unparsable patterns) / count_protonation / save_dot / get_tree, over a pool of inputs covering open forms with and without resizing, acids, anhydro, D/L, amino, modifications and failures; each call is compared with the same call made first in a fresh interpreter; the shared tables are snapshot after every call",
              "calls_in_histories": n_calls, "distinct_calls_run_fresh": len(keys),
              "print_assumptions": res.assumptions.get(f"Props/{PROP}.v", "").strip().splitlines()[-4:],
              "partial": "history independence of results is decided by the differential runs; proved: convert() leaves the modelled process state unchanged on the returning and the exception path, effect-site inventory"}
